@@ -95,7 +95,11 @@ Meshes == {
     [name |-> "pyramid", vpos |-> << <<1,1,3>>, <<0,0,0>>, <<2,0,0>>, <<2,2,0>>, <<0,2,0>> >>, faces |-> << <<0,1,2>>, <<0,2,3>>, <<0,3,4>>, <<0,4,1>> >>] }
 MSample(ms, kind, n, h, rep) == [m |-> "spatial", op |-> "msample", name |-> ms.name, vpos |-> ms.vpos, faces |-> ms.faces,
                                  kind |-> kind, n |-> n, h |-> h, rep |-> rep, sc |-> ScaleOf(h + rep)]
-Samples == {MSample(ms, "uniform", 600, 0, rep) : ms \in Meshes, rep \in 1..Reps} \cup
+\* a mesh holding an exactly degenerate (zero-area) face in the middle of its face list: it must never be hit and must not
+\* shift the area table of the faces after it
+Degenerate == [name |-> "zeroface", vpos |-> << <<0,0,0>>, <<4,0,0>>, <<0,4,0>>, <<0,0,4>>, <<2,0,0>> >>,
+               faces |-> << <<0,2,1>>, <<0,1,4>>, <<0,1,3>>, <<1,2,3>>, <<0,3,2>> >>]
+Samples == {MSample(ms, "uniform", 600, 0, rep) : ms \in Meshes \cup {Degenerate}, rep \in 1..Reps} \cup
            {MSample(ms, "dense", 0, h, 1) : ms \in Meshes, h \in {1, 2, 3, 5}} \cup
            {MSample(ms, "poisson", 0, h, rep) : ms \in Meshes, h \in {1, 2, 3}, rep \in 1..Reps}
 
